@@ -249,6 +249,44 @@ func runC04Handshake(c *Ctx) error {
 		}
 		c.count(fmt.Sprintf("hs-c%d", i), true, "kind=handshake-client", fmt.Sprintf("connected=%v", conn != nil))
 	}
+	// a server that refuses the upgrade with a huge (or endless) body: the client reports the refusal without reading it
+	for _, endless := range []bool{false, true} {
+		tap := newMemConn()
+		var conn *gws.Conn
+		var err error
+		var ms0, ms1 runtime.MemStats
+		runtime.ReadMemStats(&ms0)
+		t0 := time.Now()
+		ok := runWithTimeout(10*time.Second, func() {
+			conn, _, err = clientConn(&gws.ClientOption{HandshakeTimeout: 3 * time.Second}, &recHandler{}, tap, "", func(req *http.Request) []byte {
+				head := "HTTP/1.1 403 Forbidden\r\nContent-Type: text/plain\r\nContent-Length: 67108864\r\n\r\n"
+				if endless {
+					head = "HTTP/1.1 403 Forbidden\r\nContent-Type: text/plain\r\n\r\n"
+				}
+				go func() {
+					chunk := bytes.Repeat([]byte("no. "), 1<<16)
+					for i := 0; i < 64; i++ { // 16 MiB, then silence with the transport left open
+						tap.feed(chunk)
+					}
+				}()
+				return []byte(head)
+			})
+		})
+		runtime.ReadMemStats(&ms1)
+		tag := fmt.Sprintf("refusal with a huge body endless=%v", endless)
+		replay := map[string]any{"tag": tag, "elapsed_ms": time.Since(t0).Milliseconds(), "allocated": ms1.TotalAlloc - ms0.TotalAlloc, "err_len": len(fmt.Sprint(err))}
+		switch {
+		case !ok:
+			c.oracleFail("client handshake hung on a refusal with a huge body ["+tag+"]", "handshake-hang", replay)
+		case conn != nil || err == nil:
+			c.oracleFail("client accepted a 403 ["+tag+"]", "handshake-result", replay)
+		case ms1.TotalAlloc-ms0.TotalAlloc > 24<<20 || len(fmt.Sprint(err)) > 4096 || time.Since(t0) > 2500*time.Millisecond:
+			c.oracleFail(fmt.Sprintf("refused upgrade: the client took %d ms, allocated %d bytes and returned an error text of %d bytes (the peer's body is unbounded) [%s]",
+				time.Since(t0).Milliseconds(), ms1.TotalAlloc-ms0.TotalAlloc, len(fmt.Sprint(err)), tag), "over-allocation", replay)
+		}
+		_ = tap.Close()
+		c.count(tag, true, "kind=handshake-client-refusal-body")
+	}
 	// hostile extension parameters, both roles: no panic, no hang, no allocation governed by the peer's numbers
 	vals := []string{"-1", "0", "1", "7", "8", "15", "16", "17", "24", "30", "31", "32", "33", "62", "63", "64", "65", "255", "4294967296", "99999999999999999999", "abc", "", "15x", " 12"}
 	params := []string{"server_max_window_bits", "client_max_window_bits"}
